@@ -187,7 +187,7 @@ def gen_read(rng, tier, np=None, kinds=None, n_ops=None):
     if n_ops is None:
         n_ops = (70 if tier == 'quick' else 300) if np is None else (36 if tier == 'quick' else 150)
     if kinds is None:
-        # multi-rank .solb metric reads abort under ASan (MSOLB_SITE): they have their own stream
+        # multi-rank .solb metric reads have their own stream (they aborted under ASan before repo 505d2e5, MSOLB_SITE)
         kinds = KINDS if np is None else [k for k in KINDS if k != 'msolb']
     ops = []
     for k in range(n_ops):
@@ -632,5 +632,4 @@ SOL_WRITE_MPI = _mk('sol_write_mpi', gen_write, oracle_write, NPS)
 SOL_RST = _mk('sol_rst', gen_rst, oracle_write, None)
 SOL_RST.site = RST_SITE
 SOL_READ_MPI_MSOLB = _mk('sol_read_mpi_msolb', gen_read_msolb, oracle_read, NPS)
-SOL_READ_MPI_MSOLB.crash_site = MSOLB_SITE
 STREAMS = [SOL_READ, SOL_READ_MPI, SOL_READ_MPI_MSOLB, SOL_WRITE, SOL_WRITE_MPI, SOL_RST]
